@@ -89,12 +89,8 @@ THEOREMS = {
     'C17_kpsewhich': 'pybtex.kpathsea.kpsewhich for every behaviour of the program: cannot be started -> pybtex error for the name, nothing opened; non-zero exit -> the name '
                      'itself is opened; exit 0 -> the printed bytes minus trailing ASCII white space are opened as a bytes path (the name itself if nothing is left)',
     'C17_fallback_path': 'posixpath.join(dir, name) is dir/name for a relative name (dir non-empty, no trailing slash); an absolute name is retried unchanged',
-    'C17_module_file_argument': 'database.parse_file / BibliographyData.to_file (code WITH fix C17-x1), every table, registry and format argument: a file-like object whose '
-                                'name is the str p selects what the path p selects = find_plugin(group, format, filename=p) [model wiring]; a bytes path and a file-like object '
-                                'whose name is absent, bytes or an int (descriptor number) select what an unnamed stream selects, find_plugin(group, format)',
-    'C17_module_file_argument_tables': 'regenerated tables, no format given: every file argument without a str name (bytes path; name absent / bytes / ANY int) gets the default plug-in = '
-                                       'the class the name bibtex selects, never an error; a file-like object named dir/stem.sfx gets, for every installed suffix entry, the class '
-                                       'of the suffix, which SOME format name selects too (existential, as C17_module_functions)',
+    'C17_module_file_argument': '[model wiring: every conjunct is rfl, restates moduleFileName] parse_file / to_file (code WITH fix C17-x1): a file-like object whose name is the str p is treated as the path p = find_plugin(group, format, filename=p); a bytes path and a name that is absent / bytes / int are treated as an unnamed stream; content is carried by op modfile and C17_module_file_argument_tables',
+    'C17_module_file_argument_tables': 'regenerated tables, no format given: every file argument without a str name (bytes path; name absent / bytes / ANY int) gets the default plug-in = the class the name bibtex selects, never an error; a file-like object named dir/stem.sfx gets, for every installed suffix entry, the class of the suffix, which SOME format name selects too (existential, as C17_module_functions) (hypotheses: empty run-time registry; dir empty or ending in "/", stem without "/" and not made of periods only)',
     'C17_open_general_refines': 'pybtex.io._open modelled over a world whose io.open / Popen may raise ANY exception (EnvX): on worlds where every failure is an EnvironmentError '
                                 'it makes the same attempts in the same order and returns the same handle / PybtexError as the model of C17_open_faults / C17_kpsewhich',
     'C17_open_foreign_exceptions': 'EVERY world (no assumption on what io.open / Popen raise): a PybtexError built by _open carries the name given; a file-like object passes through; '
